@@ -1254,6 +1254,14 @@ func (st *State) resolveCall(fr *Frame, c *ssa.CallCommon) (FuncV, []Value) {
 	if c.IsInvoke() {
 		recv := st.eval(fr, c.Value).(IfaceV)
 		if recv.T == nil {
+			// metrics/logging interfaces are no-ops (their constructors are stubbed to return nil)
+			if pk := c.Method.Pkg(); pk != nil {
+				for _, p := range noopPkgPrefixes {
+					if pk.Path() == p || strings.HasPrefix(pk.Path(), strings.TrimSuffix(p, "/")+"/") || strings.HasPrefix(pk.Path(), p) {
+						return FuncV{Native: "noop", Data: c.Signature().Results()}, nil
+					}
+				}
+			}
 			panic(st.violation("nil interface method call "+c.Method.Name(), nil))
 		}
 		for _, a := range c.Args {
